@@ -37,6 +37,7 @@ var templateFuncs = template.FuncMap{
 		}
 		return fmt.Sprintf(`"%s"`, imp)
 	},
+	"verif": func() bool { return verifEnabled },
 }
 
 type Type uint8
@@ -886,6 +887,18 @@ func (t *Tree) Compile(file string, args []string, out io.Writer) (err error) {
 	_print := func(format string, a ...any) { _, _ = fmt.Fprintf(&buffer, format, a...) }
 	printSave := func(n uint) { _print("\n   position%d, tokenIndex%d := position, tokenIndex", n, n) }
 	printRestore := func(n uint) { _print("\n   position, tokenIndex = position%d, tokenIndex%d", n, n) }
+	verifEv := func(format string, a ...any) {
+		if verifEnabled && t.Ast {
+			_print("\n   if p.VerifHook != nil { p.VerifHook("+format+") }", a...)
+		}
+	}
+	if verifEnabled {
+		restore := printRestore
+		printRestore = func(n uint) {
+			restore(n)
+			verifEv(`"restore", 0, int(position), int(tokenIndex), 0`)
+		}
+	}
 	printMemoSave := func(rule int, n uint64, ret bool) {
 		_print("\n   memoize(%d, position%d, tokenIndex%d, %t)", rule, n, n, ret)
 	}
@@ -1320,6 +1333,7 @@ func (t *Tree) Compile(file string, args []string, out io.Writer) (err error) {
 			continue
 		}
 		_print("\n  func() bool {")
+		verifEv(`"enter", %d, int(position), int(tokenIndex), 0`, element.GetID())
 		if t.Ast {
 			printMemoCheck(element.GetID())
 		}
@@ -1331,6 +1345,7 @@ func (t *Tree) Compile(file string, args []string, out io.Writer) (err error) {
 		if t.Ast {
 			printMemoSave(element.GetID(), uint64(ko), true)
 		}
+		verifEv(`"exit", 1, int(position), int(tokenIndex), 0`)
 		_print("\n   return true")
 		if labels[ko] {
 			printLabel(ko)
@@ -1338,6 +1353,7 @@ func (t *Tree) Compile(file string, args []string, out io.Writer) (err error) {
 				printMemoSave(element.GetID(), uint64(ko), false)
 			}
 			printRestore(ko)
+			verifEv(`"exit", 0, int(position), int(tokenIndex), 0`)
 			_print("\n   return false")
 		}
 		_print("\n  },")
